@@ -164,18 +164,11 @@ def d7_3(ctx):
     shape = len(fl) == 3 and fl[0][:3] == ("enc", "UINT", 2) and fl[1][0] == "lenof" and fl[1][1] == "UINT" and fl[2][0] == "ref"
     ctx.check(good and shape, ckey(c.key), c.attr_nodes.get("ENCODINGS", c.node), "STRINGN: UINT char size, UINT char count, characters of that size",
               f"STRINGN layout {show(lay)} / encodings {encs}; CIP specifies UINT size, UINT count and {want}-byte characters", encodings=encs, layout=show(lay))
-    # FixedSizeString
-    c = ctx.model.cls(f"{CT}:FixedSizeString.FixedSizeString")
-    dc, fn, lay = write_layout(ctx, c)
-    fl = flatten(lay or [])
-    good = False
-    facts = {"layout": show(lay)}
-    if len(fl) == 3 and fl[0][0] == "lenof" and fl[1][0] == "ref" and fl[2][0] == "rep":
-        value = fl[0][3]
-        pad_ok = fl[2][1] == b"\x00" and fl[2][2].replace("(", "").replace(")", "") in (f"cls.size-len{value}", f"cls.size-len({value})".replace("(", "").replace(")", ""))
-        good = pad_ok and fl[1][1].startswith(f"{value}.encode(")
-    ctx.check(good, ckey(c.key + "._encode", "padding"), fn or c.node, "prefix + characters + 00-padding of (capacity - len) bytes",
-              f"fixed-capacity string is not `len + chars + 00*(size-len)`: {show(lay)}", **facts)
+    # FixedSizeString (count + characters + 00-padding up to the capacity): decided by folding the generated class on witness texts
+    # (D7.11) - an earlier form matched the three-term sum in _encode and alarmed when the terms were joined or named
+    from .driver import _fixedstring_rule
+
+    _fixedstring_rule(ctx)
     d = class_const(ctx, ctx.model.cls(f"{DT}:StringDataType"), "encoding")
     ctx.check(_enc_width(ctx, d) == 1, f"{DT}:StringDataType#encoding", ctx.model.cls(f"{DT}:StringDataType").attr_nodes.get("encoding"), "default string encoding is single-byte", f"default encoding {d!r} is not a 1-byte character set", encoding=d)
 
@@ -218,13 +211,15 @@ def d7_5(ctx):
         ctx.check(code == want["code"], key, node, f"{name} -> {cname} (code {code:#x})" if isinstance(code, int) else "ok",
                   f"DataTypes.{name} -> {cname} carries code {code!r}; CIP assigns {want['code']:#x}", code=code)
     # reverse key and get_type
-    vk = ctx.folder.class_attr(tbl, "_value_key_")
-    good = False
-    if isinstance(vk, FuncRef) and isinstance(vk.node, ast.FunctionDef):
-        rets = [r for r in walk(vk.node) if isinstance(r, ast.Return)]
-        p = vk.node.args.args[0].arg
-        good = len(rets) == 1 and attr_path(rets[0].value) == f"{p}.code"
-    ctx.check(good, ckey(tbl.key, "_value_key_"), tbl.attr_nodes.get("_value_key_", tbl.node), "reverse lookup key is the class code", "DataTypes reverse-lookup key is not the type's code")
+    # (read through the folder's model of the table: a def, a lambda or operator.attrgetter that gives the member's `code`)
+    by_n, rev = ctx.folder.enum_tables(tbl)
+    coded = {n_: ctx.folder.class_attr(v_.ci, "code") for n_, v_ in by_n.items() if isinstance(v_, ClassRef)}
+    coded = {n_: c_ for n_, c_ in coded.items() if isinstance(c_, int)}
+    if getattr(rev, "unknown", False):
+        ctx.undecided(ckey(tbl.key, "_value_key_"), tbl.attr_nodes.get("_value_key_", tbl.node), "the reverse-lookup key of DataTypes is not a form followed here (def / lambda returning an attribute, attrgetter)")
+    else:
+        good = bool(coded) and all(c_ in rev for c_ in coded.values()) and not any(isinstance(k_, ClassRef) for k_ in rev)
+        ctx.check(good, ckey(tbl.key, "_value_key_"), tbl.attr_nodes.get("_value_key_", tbl.node), "reverse lookup key is the class code", "DataTypes reverse-lookup key is not the type's code")
     gt = tbl.methods.get("get_type")
     good, bad_codes = False, []
     if gt is not None:
